@@ -38,7 +38,7 @@ def run(ctx):
             "mc": mc,
             "gen": [("drop", drop, dict(family=FAM_ALL, horizon=20, maxep=2, maxins=2, pick="insertion"), 1),
                     ("ret", ret, dict(family=FAM_ALL, horizon=20, maxep=1, maxins=2, pick="insertion", ttls=(10,)), 1),
-                    ("sim", ret, dict(family=FAM_ALL, horizon=200, maxep=3, maxins=6, pick="insertion", ids=3, simulate=3000, depth=40,
+                    ("sim", ret, dict(family=FAM_ALL, horizon=200, maxep=3, maxins=6, pick="insertion", ids=3, simulate=600, depth=40,
                                       ticks=(1, 5, 10, 30), delays=(0, 7)), 1)],
             "drv": [("drv", "all", 3000, 80, dict(big_every=40, churn_every=100))],
             "gen_cap": 80000,
